@@ -228,26 +228,28 @@ end
 
 /-! ### compute graph over ct_map / ct_digraph -/
 
-/-- `ct_digraph`: node data and adjacency, both insertion ordered `ct_map`s -/
+/-- `ct_digraph`: two insertion-ordered `ct_map`s (node → out-edges, node → data) that always have the same keys
+    (`add_node` inserts into both, nothing else inserts), kept here as one list of entries `(key, data, out-edges)` -/
 structure Graph (L : Type) where
-  nodes : List (Nat × L)
-  adj : List (Nat × List Nat)
+  entries : List (Nat × L × List Nat)
 
 namespace Graph
 variable {L : Type}
-def empty : Graph L := ⟨[], []⟩
-def hasNode (g : Graph L) (k : Nat) : Bool := g.nodes.any (·.1 == k)
+def empty : Graph L := ⟨[]⟩
+def keys (g : Graph L) : List Nat := g.entries.map (·.1)
+def hasNode (g : Graph L) (k : Nat) : Bool := g.keys.contains k
 /-- `add_node` = `ct_map::insert`: a key that is already present is left alone (first one wins) -/
 def addNode (g : Graph L) (k : Nat) (l : L) : Graph L :=
-  if g.hasNode k then g else ⟨g.nodes ++ [(k, l)], g.adj ++ [(k, [])]⟩
+  if g.hasNode k then g else ⟨g.entries ++ [(k, l, [])]⟩
 /-- `add_edge(from, to)`: appended to the out-edges of `from` unless present; `none` = `from` is not a node
     (`ct_map::at` answers CT_MAP_OUT_OF_RANGE: the C++ does not compile) -/
 def addEdge (g : Graph L) (src dst : Nat) : Option (Graph L) :=
   if g.hasNode src then
-    some { g with adj := g.adj.map fun (k, out) => if k == src && !out.contains dst then (k, out ++ [dst]) else (k, out) }
+    some ⟨g.entries.map fun e => if e.1 == src && !e.2.2.contains dst then (e.1, e.2.1, e.2.2 ++ [dst]) else e⟩
   else none
-def edges (g : Graph L) : List (Nat × Nat) := g.adj.flatMap fun (k, out) => out.map fun d => (k, d)
-def keys (g : Graph L) : List Nat := g.nodes.map (·.1)
+def entryEdges (e : Nat × L × List Nat) : List (Nat × Nat) := e.2.2.map fun d => (e.1, d)
+def edges (g : Graph L) : List (Nat × Nat) := g.entries.flatMap entryEdges
+def nodes (g : Graph L) : List (Nat × L) := g.entries.map fun e => (e.1, e.2.1)
 end Graph
 
 /-- node labels of the model graph -/
@@ -280,10 +282,10 @@ def IArgs.len : IArgs → Nat
 
 /-- merge `sub` into `g` the way both `get_compute_graph_t` specialisations do: for every key of `sub` (insertion order)
     `add_node(key, data)` then `add_edge(key, out)` for its out-edges -/
+def Graph.mergeEntry {L : Type} (acc : Graph L) (e : Nat × L × List Nat) : Option (Graph L) :=
+  e.2.2.foldlM (fun a d => a.addEdge e.1 d) (acc.addNode e.1 e.2.1)
 def Graph.merge {L : Type} (g sub : Graph L) : Option (Graph L) :=
-  sub.nodes.foldlM (fun acc (kl : Nat × L) =>
-    let outs := ((sub.adj.find? (·.1 == kl.1)).map (·.2)).getD []
-    outs.foldlM (fun a d => a.addEdge kl.1 d) (acc.addNode kl.1 kl.2)) g
+  sub.entries.foldlM Graph.mergeEntry g
 
 mutual
 /-- `get_compute_graph` with the node ids the decorators carry: sub-graphs of the operands merged first to last, then
@@ -310,6 +312,16 @@ def IView.allIds : IView → List Nat
 def IArgs.allIds : IArgs → List Nat
   | .nil => []
   | .cons v rest => IView.allIds v ++ IArgs.allIds rest
+end
+
+mutual
+/-- SPEC: one node per leaf occurrence (labelled with its host array) and per operation (labelled with its inputs) -/
+def IView.specNodes : IView → List (Nat × GLabel)
+  | .leaf n i => [(n, .leaf i)]
+  | .node n args => IArgs.specNodes args ++ [(n, .op args.ids)]
+def IArgs.specNodes : IArgs → List (Nat × GLabel)
+  | .nil => []
+  | .cons v rest => IView.specNodes v ++ IArgs.specNodes rest
 end
 
 mutual
